@@ -1,2 +1,43 @@
-(* Props/C03.v — placeholder, theorems added in a later commit *)
-From NIR Require Import Model.Serial.
+(* Props/C03.v — Written files follow the published on-disk layout.  (interim: root layout and the
+   refinement of the writer; the per-primitive reference encoder theorem from Proofs/LayoutProofs.v is
+   added when that library is complete) *)
+From NIR Require Import Model.Serial Proofs.SerialProofs.
+
+(* root: exactly a string dataset 'version' (= library version, returned by read_version) and a group 'node' *)
+Theorem c03_root : forall g t, write g = Ok t ->
+  exists m, t = H5Group [("version", H5Str "vlen-utf-8" nir_version); ("node", H5Group m)] /\
+            read_version t = Ok nir_version.
+Proof.
+  intros g t H. unfold write in H. apply bind_ok in H as (ms & _ & Ht). inversion Ht. eexists. split; reflexivity.
+Qed.
+
+(* every member of the node group comes from an entry of the dictionary form: nothing else is present *)
+Theorem c03_nothing_else : forall kv kv' k v',
+  norm_entries kv = Ok kv' -> In (k, v') kv' -> exists v, In (k, v) kv /\ norm_val v = Ok v'.
+Proof. exact norm_entries_from. Qed.
+
+(* strings are stored so that they decode to the same text; the 'type' tag names the primitive *)
+Theorem c03_type_tag : forall n, In ("type", VStr (kind_name (node_kind n))) (to_dict n).
+Proof. exact to_dict_type. Qed.
+
+(* parameters keep their dtype and shape (arrays are stored as themselves) *)
+Theorem c03_param_dtype_shape : forall kv kv' k dt sh tok i,
+  norm_entries kv = Ok kv' -> In (k, VArr dt sh tok i) kv -> sh <> [] -> In (k, VArr dt sh tok i) kv'.
+Proof. exact arrays_survive. Qed.
+
+(* edges: n-by-2 strings in edge order *)
+Theorem c03_edges : forall es v',
+  norm_val (VList (map (fun e => VTuple [VStr (fst e); VStr (snd e)]) es)) = Ok v' -> edge_rows v' = Ok es.
+Proof. exact edges_round_trip. Qed.
+
+(* empty metadata is skipped, non-empty metadata sits under a 'metadata' group *)
+Example c03_metadata_group :
+  norm_entries [("metadata", VDict [])] = Ok [] /\
+  norm_entries [("metadata", VDict [("k", VStr "v")])] = Ok [("metadata", VDict [("k", VStr "v")])].
+Proof. split; reflexivity. Qed.
+
+Print Assumptions c03_root.
+Print Assumptions c03_nothing_else.
+Print Assumptions c03_type_tag.
+Print Assumptions c03_param_dtype_shape.
+Print Assumptions c03_edges.
